@@ -40,8 +40,8 @@ Definition wrap_type (value : pyval) (fresh vo : N) : res node :=
   | PFloat _ _ => wrapped ast                                                       (* make_float_node(ast_value) *)
   | PBool _ =>
       match value with
-      | PBool b => wrapped (PInt (Z_of_bool b))
-      | PStr s => wrapped (PInt (if nonempty s then 1%Z else 0%Z))                  (* ScalarBoolean(bool("false")) is True *)
+      | PBool b => ROk (NLeaf (mkinfo fresh None true (Some sbool_tag)) (PInt (Z_of_bool b)))   (* ScalarBoolean(bool(value)) *)
+      | PStr s => ROk (NLeaf (mkinfo fresh None true (Some sbool_tag)) (PInt (if nonempty s then 1%Z else 0%Z)))   (* ScalarBoolean(bool("false")) is True *)
       | _ => bare
       end
   | PNone => bare
